@@ -222,6 +222,16 @@ Example C07_example_rematch :
   fst (tls_rematch (fun i => alpn_match [unhex "6833"] (i_protos i)) st (encode_record 769 ex_hello)) = No.
 Proof. vm_compute. repeat split. Qed.
 
+
+(* ALPN ids are opaque byte strings: a configured value that differs from the client's id only in
+   letter case, by a trailing space or by a prefix does not match *)
+Example C07_example_alpn_exact :
+  alpn_match [unhex "6832"] [unhex "4832"] = false /\
+  alpn_match [unhex "6832"; unhex "687474702f312e31"] [unhex "485454502f312e31"; unhex "73706479"] = false /\
+  alpn_match [unhex "6832"] [unhex "683220"] = false /\ alpn_match [unhex "68"] [unhex "6832"] = false /\
+  alpn_match [unhex "6e6f7065"; unhex "6832"] [unhex "6833"; unhex "6832"] = true.
+Proof. vm_compute. repeat split. Qed.
+
 (* a hello without supported_versions gets the list derived from legacy_version 0x0302 *)
 Example C07_example_legacy :
   i_versions (parse_hello (unhex "01000029" ++ encode_hello
@@ -259,6 +269,7 @@ Print Assumptions C07_rematch_bytes_only.
 Print Assumptions C07_rematch_after_outer_hello.
 Print Assumptions C07_example_rematch.
 Print Assumptions C07_alpn_match.
+Print Assumptions C07_example_alpn_exact.
 Print Assumptions C07_alpn_routing.
 Print Assumptions C07_fragmented_hello_refuted.
 Print Assumptions C07_extension_numbers.
